@@ -190,6 +190,9 @@ func c05Expr(g *xgen.G, env *xgen.Env) string {
 }
 
 func c05Round(c *Case) {
+	if !c.Canary(5) {
+		return
+	}
 	g := c.G()
 	docs := c.docPool("docs", 8, func(dg *xgen.G) *xdoc.Doc {
 		if dg.Chance(0.3) {
